@@ -233,11 +233,14 @@ class Normalizer:
         if self._return_chain(body) is not None:
             return "expr"
         rets = [x for b in body for x in ast.walk(b) if isinstance(x, ast.Return)]
-        if all(isinstance(b, (ast.Assign, ast.AugAssign, ast.Expr, ast.Return, ast.If, ast.For)) for b in body):
+        if all(isinstance(b, (ast.Assign, ast.AugAssign, ast.Expr, ast.Return, ast.If, ast.For, ast.While)) for b in body):
             if not rets or (len(rets) == 1 and rets[0] is body[-1]):
                 return "stmt"
             if _tailify(body, "__probe") is not None:
                 return "stmt"
+        if all(isinstance(b, (ast.Assign, ast.AugAssign, ast.Expr, ast.Return, ast.If, ast.For, ast.While, ast.Raise)) for b in body):
+            # returns inside loops: can only replace a call that is itself returned (``return helper(...)``)
+            return "tail"
         return None
 
     @staticmethod
@@ -382,16 +385,63 @@ class Normalizer:
                 call, target = s.value, "return"
             if call is not None:
                 h, recv = self._resolve_helper(call, cls_name)
-                if h is not None and self._helper_kind(h) == "stmt":
+                hk = self._helper_kind(h) if h is not None else None
+                if hk == "tail" and target == "return":
+                    mapping = _bind(h, call, recv)
+                    body = _body_wo_doc(h)
+                    if mapping is not None:
+                        new = copy.deepcopy(body)
+                        locs = {x.id for b in new for x in ast.walk(b) if isinstance(x, ast.Name) and isinstance(x.ctx, ast.Store)}
+                        pre = []
+                        ren = {}
+                        for l in sorted(locs | set(mapping)):
+                            if l in taken and l not in ("self", "cls"):
+                                k = 1
+                                while f"{l}_{k}" in taken:
+                                    k += 1
+                                ren[l] = f"{l}_{k}"
+                        taken |= {ren.get(l, l) for l in locs | set(mapping)}
+                        for p_, v_ in mapping.items():
+                            if p_ in ("self", "cls") and isinstance(v_, ast.Name) and v_.id == p_:
+                                continue
+                            pre.append(ast.copy_location(ast.Assign(targets=[ast.Name(id=ren.get(p_, p_), ctx=ast.Store())], value=copy.deepcopy(v_)), s))
+                        for b in new:
+                            for x in ast.walk(b):
+                                if isinstance(x, ast.Name) and x.id in ren:
+                                    x.id = ren[x.id]
+                        if not _terminates(new):
+                            new.append(ast.copy_location(ast.Return(value=ast.Constant(None)), s))
+                        for b in pre + new:
+                            for x in ast.walk(b):
+                                if not hasattr(x, "lineno"):
+                                    ast.copy_location(x, s)
+                        self.report["helpers"].append(f"{h.name} (returned call) at line {getattr(s, 'lineno', 0)}")
+                        out.extend(pre + (self._inline_stmt_calls(new, cls_name, taken, depth + 1) if depth < 3 else new))
+                        continue
+                if h is not None and hk == "stmt":
                     mapping = _bind(h, call, recv)
                     body = _body_wo_doc(h)
                     ok = mapping is not None and all(_is_simple_arg(v) or _uses(body, p) <= 1 for p, v in mapping.items())
-                    # parameters assigned inside the helper cannot be substituted
-                    if ok:
+                    # parameters assigned inside the helper are bound to a local of their own first
+                    rebinds = []
+                    if mapping is not None:
                         assigned = {x.id for b in body for x in ast.walk(b) if isinstance(x, ast.Name) and isinstance(x.ctx, ast.Store)}
-                        ok = not (assigned & set(mapping))
+                        for p_ in sorted(assigned & set(mapping)):
+                            if not (_is_simple_arg(mapping[p_]) or _uses(body, p_) >= 0):
+                                ok = False
+                        if mapping is not None and not ok:
+                            # re-evaluate: only the non-rebound parameters are subject to the single-use rule
+                            ok = all(_is_simple_arg(v) or _uses(body, p) <= 1 or p in assigned for p, v in mapping.items())
+                        rebinds = sorted(assigned & set(mapping)) if ok else []
                     if ok:
                         new = copy.deepcopy(body)
+                        if rebinds:
+                            pre = []
+                            for p_ in rebinds:
+                                pre.append(ast.Assign(targets=[ast.Name(id=p_, ctx=ast.Store())], value=copy.deepcopy(mapping[p_])))
+                                ast.copy_location(pre[-1], s)
+                            mapping = {k_: v_ for k_, v_ in mapping.items() if k_ not in rebinds}
+                            new = pre + new
                         ret = None
                         n_rets = sum(1 for b in new for x in ast.walk(b) if isinstance(x, ast.Return))
                         if n_rets > 1 or (n_rets == 1 and not isinstance(new[-1], ast.Return)):
